@@ -10,7 +10,7 @@ python3 - <<'PY'
 import sys, os
 sys.path.insert(0, os.path.join(os.getcwd(), 'engine'))
 from hpkelint import framework
-for cfg in ('all', 'default', 'none'):
+for cfg in ('all', 'default', 'none', 'all' + framework.NODEBUG):
     p, m = framework.extract_facts('/repo', cfg)
     print('facts', cfg, os.path.basename(p), m)
 p, m = framework.extract_facts(os.path.join(os.getcwd(), 'fixtures', 'posctl'), 'default', crate='posctl')
